@@ -17,13 +17,16 @@ theorem any_contains_iff (env : Env Net Pat IP) (nets : List Net) (ip : IP) :
     nets.any (fun n => env.contains n ip) = true ↔ inAny env nets ip := by
   simp [inAny, List.any_eq_true]
 
+theorem addrText_nozone (env : Env Net Pat IP) (ip : IP) : addrText env ip "" = env.ipText ip := by
+  simp [addrText]
+
 /-- characterisation of acceptance: the only way to a non-empty output -/
-theorem accepted_iff (env : Env Net Pat IP) (pol : Policy Net Pat) (a : Answers IP) :
-    (parseOrResolve env pol a).out ≠ "" ↔
-      ∃ host port ip text, a.providedIsIP = false ∧ a.split = some (host, port) ∧
+theorem accepted_iff (env : Env Net Pat IP) (pol : Policy Net Pat) (a : Answers) (rs : Resolver IP) (n : Nat) :
+    (parseOrResolve env pol a rs n).out ≠ "" ↔
+      ∃ host port ip, a.providedIsIP = false ∧ a.split = some (host, port) ∧
         isBlocklistedCovertDomain env pol host = false ∧ a.portOk = true ∧
-        a.resolved = .addr (some ip) "" text ∧ isBlocklistedCovertAddr env pol ip = false ∧
-        parseOrResolve env pol a = ⟨joinHostPort text port, !a.hostIsIP, 1⟩ := by
+        rs n = .addr (some ip) "" ∧ isBlocklistedCovertAddr env pol ip = false ∧
+        parseOrResolve env pol a rs n = ⟨joinHostPort (env.ipText ip) port, !a.hostIsIP, n + 1⟩ := by
   constructor
   · intro h
     cases hp : a.providedIsIP with
@@ -39,10 +42,10 @@ theorem accepted_iff (env : Env Net Pat IP) (pol : Policy Net Pat) (a : Answers 
           cases hk : a.portOk with
           | false => simp [parseOrResolve, hp, hs, hd, hk] at h
           | true =>
-            cases hr : a.resolved with
+            cases hr : rs n with
             | err => simp [parseOrResolve, hp, hs, hd, hk, hr] at h
             | nilAddr => simp [parseOrResolve, hp, hs, hd, hk, hr] at h
-            | addr ip zone text =>
+            | addr ip zone =>
               cases ip with
               | none => simp [parseOrResolve, hp, hs, hd, hk, hr] at h
               | some ip =>
@@ -51,15 +54,16 @@ theorem accepted_iff (env : Env Net Pat IP) (pol : Policy Net Pat) (a : Answers 
                 | false =>
                   by_cases hz : zone = ""
                   · subst hz
-                    refine ⟨host, port, ip, text, rfl, rfl, hd, rfl, rfl, hb, ?_⟩
-                    simp [parseOrResolve, hp, hs, hd, hk, hr, hb]
+                    refine ⟨host, port, ip, rfl, rfl, hd, rfl, rfl, hb, ?_⟩
+                    simp [parseOrResolve, hp, hs, hd, hk, hr, hb, addrText]
                   · simp [parseOrResolve, hp, hs, hd, hk, hr, hb, hz] at h
-  · rintro ⟨host, port, ip, text, _, _, _, _, _, _, h⟩
+  · rintro ⟨host, port, ip, _, _, _, _, _, _, h⟩
     rw [h]
-    exact joinHostPort_ne_empty text port
+    exact joinHostPort_ne_empty _ port
 
-theorem resolverCalls_le_one (env : Env Net Pat IP) (pol : Policy Net Pat) (a : Answers IP) :
-    (parseOrResolve env pol a).resolverCalls ≤ 1 := by
+/-- the cursor moves by at most one, and never backwards -/
+theorem cursor_bounds (env : Env Net Pat IP) (pol : Policy Net Pat) (a : Answers) (rs : Resolver IP) (n : Nat) :
+    n ≤ (parseOrResolve env pol a rs n).cursor ∧ (parseOrResolve env pol a rs n).cursor ≤ n + 1 := by
   unfold parseOrResolve
   split
   · simp
@@ -70,5 +74,121 @@ theorem resolverCalls_le_one (env : Env Net Pat IP) (pol : Policy Net Pat) (a : 
       · split
         · simp
         · split <;> (try split) <;> (try split) <;> simp
+
+/-- the whole result is a function of the one answer under the cursor -/
+theorem result_congr (env : Env Net Pat IP) (pol : Policy Net Pat) (a : Answers) (rs rs' : Resolver IP) (n : Nat)
+    (h : rs n = rs' n) : parseOrResolve env pol a rs n = parseOrResolve env pol a rs' n := by
+  unfold parseOrResolve
+  rw [h]
+
+/-! ### interleaved workers -/
+
+theorem updateAt_same {α : Type} (f : Nat → α) (i : Nat) (v : α) : updateAt f i v i = v := by
+  simp [updateAt]
+
+theorem updateAt_other {α : Type} (f : Nat → α) (i j : Nat) (v : α) (h : j ≠ i) : updateAt f i v j = f j := by
+  simp [updateAt, h]
+
+section steps
+variable (env : Env Net Pat IP) (pol : Policy Net Pat) (inp : Inputs) (rs : Resolver IP)
+
+theorem step_done (w : World) (i : Nat) (h : w.pc i = .done) : step env pol inp rs w i = w := by
+  unfold step; rw [h]
+
+theorem step_pc_other (w : World) (i j : Nat) (h : j ≠ i) : (step env pol inp rs w i).pc j = w.pc j := by
+  unfold step
+  cases hpc : w.pc i with
+  | afterExists dup => cases dup <;> simp [updateAt, h]
+  | afterTrack => simp only; split <;> (try split) <;> simp [updateAt, h]
+  | _ => simp [updateAt, h]
+
+theorem step_covertOf_other (w : World) (i j : Nat) (h : j ≠ i) :
+    (step env pol inp rs w i).covertOf j = w.covertOf j := by
+  unfold step
+  cases hpc : w.pc i with
+  | afterExists dup => cases dup <;> simp
+  | afterTrack => simp only; split <;> (try split) <;> simp [updateAt, h]
+  | _ => simp
+
+theorem step_covertOf_self (w : World) (i : Nat) (h : w.pc i ≠ .afterTrack) :
+    (step env pol inp rs w i).covertOf i = w.covertOf i := by
+  unfold step
+  cases hpc : w.pc i with
+  | afterExists dup => cases dup <;> simp
+  | afterTrack => exact absurd hpc h
+  | _ => simp
+
+/-- a worker gets to the validation step only through an accepted check of its own covert string, whose
+output it wrote into its own object -/
+theorem step_pc_beforeRegister (w : World) (i : Nat) (h : (step env pol inp rs w i).pc i = .beforeRegister) :
+    (parseOrResolve env pol (inp.ans i) rs w.cursor).out ≠ "" ∧
+      (step env pol inp rs w i).covertOf i = (parseOrResolve env pol (inp.ans i) rs w.cursor).out := by
+  unfold step at h ⊢
+  cases hpc : w.pc i with
+  | afterExists dup => rw [hpc] at h; cases dup <;> simp [updateAt] at h
+  | afterTrack =>
+    rw [hpc] at h
+    simp only at h ⊢
+    by_cases hout : (parseOrResolve env pol (inp.ans i) rs w.cursor).out = ""
+    · rw [if_pos hout] at h; simp [updateAt] at h
+    · rw [if_neg hout] at h ⊢
+      cases hp : inp.passes i with
+      | false => simp [hp, updateAt] at h
+      | true => simp [updateAt, hout]
+  | start => rw [hpc] at h; simp [updateAt] at h
+  | beforeRegister => rw [hpc] at h; simp [updateAt] at h
+  | done => rw [hpc] at h; simp only at h; rw [hpc] at h; cases h
+
+/-- a valid entry after a step was valid before, or was just validated by this worker with its own
+object as the stored one -/
+theorem step_store_valid (w : World) (i : Nat) (e : Entry) (h : (step env pol inp rs w i).store = some e)
+    (hv : e.valid = true) :
+    w.store = some e ∨ (w.pc i = .beforeRegister ∧ e = ⟨i, true⟩ ∧ (step env pol inp rs w i).pc i = .done) := by
+  unfold step at h ⊢
+  cases hpc : w.pc i with
+  | start => rw [hpc] at h; exact Or.inl h
+  | afterExists dup =>
+    rw [hpc] at h
+    cases dup with
+    | true => exact Or.inl h
+    | false =>
+      simp only at h
+      cases hst : w.store with
+      | none => rw [hst] at h; simp only [Option.some.injEq] at h; subst h; cases hv
+      | some e0 => rw [hst] at h; exact Or.inl h
+  | afterTrack =>
+    rw [hpc] at h
+    simp only at h
+    split at h
+    · exact Or.inl h
+    · split at h <;> exact Or.inl h
+  | beforeRegister =>
+    rw [hpc] at h
+    simp only at h ⊢
+    unfold registerStep at h
+    cases hst : w.store with
+    | none =>
+      rw [hst] at h; simp only [Option.some.injEq] at h
+      refine Or.inr ⟨?_, h.symm, ?_⟩ <;> first | trivial | exact hpc | simp [updateAt]
+    | some e0 =>
+      rw [hst] at h
+      cases hv0 : e0.valid with
+      | true => simp only [hv0, if_true] at h; exact Or.inl h
+      | false =>
+        simp only [hv0, Bool.false_eq_true, if_false, Option.some.injEq] at h
+        refine Or.inr ⟨?_, h.symm, ?_⟩ <;> first | trivial | exact hpc | simp [updateAt]
+  | done => rw [hpc] at h; exact Or.inl h
+
+/-- a valid entry is never touched again -/
+theorem step_store_keeps_valid (w : World) (i : Nat) (e : Entry) (h : w.store = some e) (hv : e.valid = true) :
+    (step env pol inp rs w i).store = some e := by
+  unfold step
+  cases hpc : w.pc i with
+  | afterExists dup => cases dup <;> simp [h]
+  | afterTrack => simp only; split <;> (try split) <;> simp [h]
+  | beforeRegister => simp [registerStep, h, hv]
+  | _ => simp [h]
+
+end steps
 
 end CJ.Covert
